@@ -1,4 +1,6 @@
 import H264.Gen
+import H264.Gen2
+import H264.Gen3
 /-! Lean-side generator: values drawn from `H264/Gen.lean`, encoded with the proved spec encoders; every line is
 `<case> | <expected observation>` -/
 def main (args : List String) : IO Unit := do
@@ -12,5 +14,13 @@ def main (args : List String) : IO Unit := do
       let ((c, e), rng') := Gen.spsCase.run rng
       rng := rng'
       out.putStrLn (c ++ " | " ++ e)
+    else if kind = "group" then
+      let ((lines, _), rng') := Gen.groupCase.run rng
+      rng := rng'
+      for l in lines do out.putStrLn l
+    else if kind = "seipayload" then
+      let (lines, rng') := Gen.seiGroup.run rng
+      rng := rng'
+      for l in lines do out.putStrLn l
     else
       out.putStrLn "bad-kind"
